@@ -303,7 +303,7 @@ class IntervalArray:
         """
         prev_n = self.n
         a = method(self.a, num)
-        return IntervalArray(a, prev_n * num)
+        return IntervalArray(a, prev_n * index(num))  # n * num wraps around in the type of a narrow NumPy integer factor
 
     def oversample_linspace(self, num: int):
         r"""Concrete implementation of oversample using linspace.
